@@ -96,7 +96,7 @@ theorem mesh_resolution (m t : Rat) (maxima mid : Int) (hm : 0 ≤ m)
       ∧ t - 1 / 20 < ((maxima - mid : Int) : Rat) + (j : Rat) / 20
       ∧ ((maxima - mid : Int) : Rat) + (j : Rat) / 20 < t + 1 / 20 := by
   have hne := (C05.mesh_nonempty m maxima mid hm hs1 hs2).1
-  simp only [meshBounds] at hne ⊢
+  rw [C05.meshBounds_nf] at hne ⊢; simp only [C05.meshBoundsNF] at hne ⊢
   generalize hs : maxima - mid = s at *
   have hneg : (((-s : Int)) : Rat) = -(s : Rat) := by simp [Rat.intCast_neg]
   rw [hneg] at hne ⊢
